@@ -357,6 +357,19 @@ func (f *Fosite) authorizeRequestFromPAR(ctx context.Context, r *http.Request, r
 		return false, errorsx.WithStack(ErrInvalidRequest.WithHint("The 'client_id' must match the one sent in the pushed authorization request."))
 	}
 
+	// The stored request carries the client as it was registered when the request was pushed. The client has to
+	// exist still, and the pushed redirect URI has to be one it still registers.
+	client, err := f.Store.GetClient(ctx, clientID)
+	if err != nil {
+		return false, errorsx.WithStack(ErrInvalidClient.WithHint("The requested OAuth 2.0 Client does not exist.").WithWrap(err).WithDebug(err.Error()))
+	}
+	request.Client = client
+	if redirectURI := request.GetRedirectURI(); redirectURI != nil {
+		if _, err := MatchRedirectURIWithClientRedirectURIs(redirectURI.String(), client); err != nil {
+			return false, err
+		}
+	}
+
 	return true, nil
 }
 
